@@ -151,6 +151,30 @@ func crcTuned(h fitmodel.Header, mask uint16) []byte {
 	panic("crcTuned: no value found")
 }
 
+// longFieldsFile: device_info records whose product_name is a 200-byte string, so that long fields straddle the
+// decoder's 4096-byte buffer boundary.
+// stringLast: the long field is the last one of the record (a record is complete as soon as it is read) or is
+// followed by a short field.
+func longFieldsFile(h fitmodel.Header, n int, stringLast bool) []byte {
+	d := fitmodel.Def{Local: 1, Global: 23, Fields: []fitmodel.FieldDef{{Num: 253, Size: 4, Base: fitmodel.Uint32}, {Num: 27, Size: 200, Base: fitmodel.String}, {Num: 2, Size: 2, Base: fitmodel.Uint16}}}
+	if stringLast {
+		d.Fields[1], d.Fields[2] = d.Fields[2], d.Fields[1]
+	}
+	recs := append(fitmodel.FileIdRecords(0, 4), d.Bytes())
+	for i := 0; i < n; i++ {
+		name := make([]byte, 200)
+		for j := 0; j < 198; j++ {
+			name[j] = byte('a' + (i+j)%26)
+		}
+		parts := [][]byte{fitmodel.PutUint(binary.LittleEndian, 4, uint64(1000000000+i)), name, fitmodel.PutUint(binary.LittleEndian, 2, uint64(100+i))}
+		if stringLast {
+			parts[1], parts[2] = parts[2], parts[1]
+		}
+		recs = append(recs, fitmodel.Data(1, fitmodel.Concat(parts...)))
+	}
+	return buildFile(h, recs...)
+}
+
 func chain(name string, members ...[]byte) namedStream {
 	return namedStream{Name: name, B: fitmodel.Concat(members...), Members: members}
 }
@@ -180,6 +204,8 @@ var (
 	sChainState  = chain("chain(activity-3rec,monitoring-stateful)", sAct3.B, sMonState.B)
 	sChainState3 = chain("chain(monitoring-stateful,activity-3rec-be,monitoring-stateful)", sMonState.B, sAct3BE.B, sMonState.B)
 	sChainZero   = chain("chain(zero-size-fields,min12)", sZero.B, sMin12.B)
+	sLongFields  = single("device_info-200-byte-strings-x28", longFieldsFile(hdr14(), 28, false))
+	sLongFieldsL = single("device_info-200-byte-strings-last-x28", longFieldsFile(hdr12(), 28, true))
 )
 
 // The CRC-tuned streams are searched for, so they are built on first use (not at package initialisation, which
